@@ -99,7 +99,8 @@ RULE = ("every listed operation on random abelian arrays (all symmetries, static
         "through method / symmray function / autoray dispatch; binary operations on operands with different stored "
         "sectors; diagonal vectors missing charges; BlockVector arithmetic and every exported elementwise function. "
         "Compared with the Lean model and with numpy on an independent densification. non-trivial: binary ops with "
-        "different stored sectors, or a sparse operand")
+        "different stored sectors, or a sparse operand"
+        '; transposition axes given with negative entries')
 ANCHORS = {"abelian_core.py": ["transpose", "conj", "dagger", "squeeze", "expand_dims", "multiply_diagonal", "to_dense"],
            "block_core.py": ["_binary_blockwise_op", "__add__", "__sub__", "__mul__", "__truediv__", "__neg__",
                              "_do_reduction", "_do_unary_op", "norm"],
